@@ -1099,6 +1099,27 @@ def getslice(I: Interp, base: V, lo: V | None, hi: V | None, step: V | None) -> 
 
 
 def setitem(I: Interp, base: V, idx: V, val: V) -> None:
+    if isinstance(base, VSymMap):
+        # m[k] = v on a symbolic map: pointwise update of its observers
+        has0, get0, k0 = base.has, base.get, idx
+
+        def has(k: V) -> Any:
+            e = mk_eq(I, k, k0)
+            e = z3.BoolVal(e) if isinstance(e, bool) else e
+            h = has0(k)
+            return z3.Or(e, z3.BoolVal(h) if isinstance(h, bool) else h)
+
+        def get(k: V) -> V:
+            e = mk_eq(I, k, k0)
+            if e is True:
+                return val
+            if e is False:
+                return get0(k)
+            return val if I.branch(e) else get0(k)
+        base.has, base.get = has, get
+        base.n = z3.Int(I.fresh_name("map_n"))
+        I.ghost.setdefault("map_writes", []).append((base, idx, val))
+        return
     if isinstance(base, VDict):
         dict_set(I, base, idx, val)
         return
@@ -1807,6 +1828,30 @@ def _range(I: Interp, args: list[V], kwargs: dict[str, V]) -> V:
         raise Unsupported("range with non-positive symbolic bounds step")
     n = z3.If(stop > start, (stop - start + (step - 1)) / step, z3.IntVal(0))
     return VList(None, simp(n), lambda j: VInt(start + step * j), kind="range")
+
+
+import itertools as _it  # noqa: E402
+
+
+@register(_it.product)
+def _product(I: Interp, args: list[V], kwargs: dict[str, V]) -> V:
+    lists = [a if isinstance(a, VList) else VList(iterate(I, a)) for a in args]
+    if all(l.items is not None for l in lists):
+        return VList([VTuple(list(t)) for t in _it.product(*[l.items for l in lists])])
+    if len(lists) == 2 and lists[0].items is None and lists[1].items is not None \
+            and len(lists[1].items) >= 1:
+        m = len(lists[1].items)
+        a, b = lists
+        return VList(None, simp(a.n * m),
+                     lambda j: VTuple([a.at(simp(j / m)), b.at(simp(j % m))]))
+    raise Unsupported("itertools.product over these operands")
+
+
+@register(map)
+def _map(I: Interp, args: list[V], kwargs: dict[str, V]) -> V:
+    if len(args) != 2:
+        raise Unsupported("map with several iterables")
+    return VList([I.call_v(args[0], [x], {}) for x in iterate(I, args[1])])
 
 
 @register(zip)
